@@ -11,9 +11,12 @@
 //! started on the copy; the thorough tier also SIGKILLs a child process running the same ops.
 //!
 //! Ops (every output is a deterministic function of the op lines):
+//!   tag <name>               no effect (marks pinned cases of known findings)
 //!   fill <n>                 n filler rows in `t` and `big` (makes the `slow` query's initial run last)
 //!   sub <all|slow> [nowait]  subscribe; `nowait` returns at the first row (initial query still running)
-//!   w <pk>=<v|x>,...         one local transaction on `t` (x = delete); waits for its match step
+//!   w <pk>=<v|x>,...         one local transaction on `t` (x = delete); waits for its match step and, when the
+//!                            matcher can be brought to quiescence, for that
+//!   wp <pk>=<v|x>,...        the same, leaving the candidates waiting in the matcher
 //!   hold / release           occupy / free the node's read pool (a write's match step needs a read
 //!                            connection, so it is deferred while the pool is held)
 //!   sync                     wait until the matcher is quiescent (materialised rows = query result)
@@ -31,8 +34,11 @@
 //!   restart <tag|live>       fresh agent on an image / on the live directory (after `exit`)
 //!   subinfo                  found|404, state, rows vs query, last change id  (+ the property oracle)
 //!   check                    oracle only (prints `ok`)
-//!   kill <phase> <n>         thorough tier: the ops so far are re-run in a child process that is
-//!                            SIGKILLed at the seeded point; the case continues on its directory
+//!   kill idle|busy <ms>      thorough tier: the ops so far are run in a CHILD process (this executable again, env
+//!                            HX_C13_CHILD_NODE) which is SIGKILLed <ms> later (`busy`: while it keeps writing keys
+//!                            outside the ops' key space); the case continues on its directory (`restart live`)
+//!   kill wind <us>           the child starts the stop sequence and is SIGKILLed <us> after drop_handles() began:
+//!                            restored or removed, only `restart live` + `check` (oracle) follow
 use std::collections::BTreeMap;
 use std::path::{Path, PathBuf};
 use std::sync::{Arc, Mutex};
@@ -1720,7 +1726,7 @@ impl Prop for C13 {
     }
     fn default_cases(&self, tier: Tier) -> usize {
         match tier {
-            Tier::Quick => 14,
+            Tier::Quick => 9,
             Tier::Thorough => 220,
         }
     }
